@@ -822,6 +822,7 @@ where
     /// Computes the set of natural loops in the graph
     pub fn compute_loops(&self, head: usize) -> Result<Vec<Loop>, Error> {
         let mut loops: BTreeMap<usize, BTreeSet<usize>> = BTreeMap::new();
+        let reachable = self.reachable_vertices(head)?;
 
         // For each back edge compute the set of nodes part of the loop
         for (tail, header) in self.compute_back_edges(head)? {
@@ -836,7 +837,8 @@ where
 
             while let Some(node) = queue.pop() {
                 for &predecessor in &self.predecessors[&node] {
-                    if nodes.insert(predecessor) {
+                    // vertices which are unreachable from head are not part of any loop
+                    if reachable.contains(&predecessor) && nodes.insert(predecessor) {
                         queue.push(predecessor);
                     }
                 }
